@@ -11,7 +11,12 @@ Inductive query : Type :=
 | QRRevSim (amount : N) (ops : list (asset * asset))
 (* the same router questions answered by the driver composing the PAIR queries hop by hop *)
 | QRSimCompose (amount : N) (ops : list (asset * asset))
-| QRRevSimCompose (amount : N) (ops : list (asset * asset)).
+| QRRevSimCompose (amount : N) (ops : list (asset * asset))
+(* a client's walk over the factory's pair listing with the given page size: the pair contracts visited, ascending *)
+| QPairsWalk (limit : option N).
+Fixpoint insert_sorted (x : N) (l : list N) : list N :=
+  match l with [] => [x] | y :: r => if x <=? y then x :: l else y :: insert_sorted x r end.
+Definition sort_n (l : list N) : list N := fold_right insert_sorted [] l.
 Definition eval_query (w : world) (q : query) : res (list N) :=
   match q with
   | QSim p o a => let* r := q_simulation w p o a in let '(x, y, z) := r in Ok [x; y; z]
@@ -20,6 +25,7 @@ Definition eval_query (w : world) (q : query) : res (list N) :=
   | QRRevSim a ops => let* r := q_router_reverse_ops w a ops in Ok [r]
   | QRSimCompose a ops => let* r := q_router_simulate_ops w a ops in Ok [r]
   | QRRevSimCompose a ops => let* r := q_router_reverse_ops w a ops in Ok [r]
+  | QPairsWalk _ => Ok (sort_n (map f_pair (w_reg w)))
   end.
 Fixpoint ops_eqb (l1 l2 : list (asset * asset)) : bool :=
   match l1, l2 with
@@ -168,7 +174,15 @@ Definition mon_C07 : monitor := fun L s st s' =>
       | OBurnFrom t _ _ _ => t =? lp
       | _ => false
       end) (existing_pairs L s) in
-  (frame && recv_ok && conserve && supplies && lp_ok, false).
+  (* a Receive envelope handed to a contract directly names a `sender` of the caller's choosing: that account can at most
+     be paid, never charged *)
+  let envelope_ok :=
+    match o with
+    | ORouterReceive c cs _ _ => (cs =? c) || forallb (fun x => s_asset_bal L s x cs <=? s_asset_bal L s' x cs) (all_assets L)
+    | OPairReceive _ c _ cs _ _ => (cs =? c) || forallb (fun x => s_asset_bal L s x cs <=? s_asset_bal L s' x cs) (all_assets L)
+    | _ => true
+    end in
+  (frame && recv_ok && conserve && supplies && lp_ok && envelope_ok, false).
 
 (* C03 / C01 at system level: reserve0*reserve1/supply^2 never decreases; swaps in the known class exempt *)
 Definition pair_reserves L s p : N * N :=
@@ -539,6 +553,21 @@ Definition mon_C15 : monitor := fun L s st s' =>
        (d1 * (D - t) * r0 <? r1 * d0 * D + 2 * d0 * r0)
    | _ => true
    end, false).
+
+Fixpoint nlist_eqb_w0 (l1 l2 : list N) : bool :=
+  match l1, l2 with
+  | [], [] => true
+  | a :: l1, b :: l2 => (a =? b) && nlist_eqb_w0 l1 l2
+  | _, _ => false
+  end.
+(* C19 at system level: every walk over the listing asked in a state visits exactly the pairs that exist in that state, each
+   once, whatever the page size *)
+Definition mon_C19 : monitor := fun L s st s' =>
+  ((if hs_ok st then true else fail_unchanged st) &&
+   forallb (fun qa => match qa with
+                      | (QPairsWalk _, Some ids) => nlist_eqb_w0 ids (existing_pairs L s)
+                      | (QPairsWalk _, None) => false
+                      | _ => true end) (hs_queries st), false).
 
 Definition mon_generic : monitor := fun L s st s' => (fail_unchanged st, false).
 
